@@ -725,6 +725,7 @@ rp_close(rpeer *p)
 
 // --------------------------------------------- strict HTTP message head parser
 #define MAXH 40
+#define MAXLINES 1200 // header lines of one echoed / decoded message (big-head cases)
 typedef struct {
 	bool   is_req;
 	char   method[64], target[2048], version[16];
@@ -950,6 +951,7 @@ typedef struct {
 	bool closing; // server will close after the response
 	bool head;
 	bool discard; // body goes to the handler that does not collect it
+	bool big;     // head of 8-20 KB made of short lines (more than nng's 8160-byte HTTP buffer)
 	char desc[96];
 	marks m;
 } hreq;
@@ -964,7 +966,7 @@ cmp_str(const void *a, const void *b)
 static bool
 canon_echo(const uint8_t *b, size_t len, bb *out)
 {
-	char  *lines[MAXH + 8];
+	static char *lines[MAXLINES];
 	int    nl  = 0;
 	size_t pos = 0;
 	int    stage = 0;
@@ -974,7 +976,7 @@ canon_echo(const uint8_t *b, size_t len, bb *out)
 		while (e < len && b[e] != '\n') e++;
 		if (e >= len) return false;
 		if (b[pos] == 'H' && stage == 2) {
-			if (nl >= MAXH + 8) return false;
+			if (nl >= MAXLINES) return false;
 			lines[nl] = strndup((const char *) b + pos, e - pos);
 			nl++;
 		} else if (b[pos] == 'B' && stage == 2) {
@@ -1154,6 +1156,108 @@ gen_request(vf_rng *r, hreq *q)
 	bb_free(&body);
 }
 
+// nng's HTTP connection buffer (http_conn.c HTTP_BUFSIZE): heads larger than
+// this are parsed in several buffer fills with consumed lines pulled up
+#define NNG_HTTP_BUF 8160
+
+// many short, uniquely named header lines until the head reaches 'target'
+// bytes; 'exp' gets the sorted "H name: value" lines of the model
+static void
+gen_many_headers(vf_rng *r, bb *wire, size_t target, bb *exp)
+{
+	static char *lines[MAXLINES];
+	int          nl = 0;
+	for (int i = 0; wire->n < target && nl < MAXLINES - 8; i++) {
+		char name[40], val[80];
+		snprintf(name, sizeof(name), "X-B%d-%u", i, vf_below(r, 100000));
+		size_t vl = vf_below(r, 60);
+		for (size_t k = 0; k < vl; k++) {
+			int c = vf_chance(r, 1, 8) ? ' ' : (int) vf_range(r, 0x21, 0x7e);
+			if ((k == 0 || k == vl - 1) && c == ' ') c = 'w';
+			val[k] = (char) c;
+		}
+		val[vl] = 0;
+		bb_printf(wire, "%s:%s%s\r\n", name, vf_chance(r, 1, 2) ? " " : "", val);
+		size_t l = strlen(name) + vl + 8;
+		lines[nl] = malloc(l);
+		snprintf(lines[nl], l, "H %s: %s", name, val);
+		nl++;
+	}
+	qsort(lines, (size_t) nl, sizeof(char *), cmp_str);
+	for (int i = 0; i < nl; i++) {
+		bb_str(exp, lines[i]);
+		bb_ch(exp, '\n');
+		free(lines[i]);
+	}
+}
+
+static void
+gen_big_request(vf_rng *r, hreq *q)
+{
+	bb     hl = { 0 };
+	size_t target = vf_chance(r, 1, 3) ? vf_range(r, NNG_HTTP_BUF + 1, NNG_HTTP_BUF + 400) : vf_range(r, 8300, 20000);
+	bool   post = vf_chance(r, 1, 2);
+	size_t bl   = post ? vf_below(r, 80) : 0;
+	char   uri[64];
+	memset(q, 0, sizeof(*q));
+	q->big = q->modelled = true;
+	snprintf(uri, sizeof(uri), "/big/%u", vf_below(r, 100000));
+	bb_printf(&q->wire, "%s %s HTTP/1.1\r\n", post ? "POST" : "GET", uri);
+	// names sort after "Content-Length" / "Host" in neither case reliably: the
+	// model text is assembled from sorted lines below
+	gen_many_headers(r, &q->wire, target - 60, &hl);
+	bb_str(&q->wire, "Host: big.test\r\n");
+	if (post) bb_printf(&q->wire, "Content-Length: %zu\r\n", bl);
+	bb_str(&q->wire, "\r\n");
+	size_t head = q->wire.n;
+	bb body = { 0 };
+	for (size_t i = 0; i < bl; i++) bb_ch(&body, (int) vf_below(r, 256));
+	bb_add(&q->wire, body.p, body.n);
+	// expected canonical echo: all H lines sorted together
+	bb all = { 0 };
+	bb_add(&all, hl.p, hl.n);
+	bb_str(&all, "H Host: big.test\n");
+	if (post) bb_printf(&all, "H Content-Length: %zu\n", bl);
+	{
+		static char *lines[MAXLINES];
+		int          nl = 0;
+		char        *save = NULL;
+		for (char *ln = strtok_r((char *) all.p, "\n", &save); ln != NULL && nl < MAXLINES; ln = strtok_r(NULL, "\n", &save)) lines[nl++] = ln;
+		qsort(lines, (size_t) nl, sizeof(char *), cmp_str);
+		bb_printf(&q->expect, "M %s\nU %s\n", post ? "POST" : "GET", uri);
+		for (int i = 0; i < nl; i++) {
+			bb_str(&q->expect, lines[i]);
+			bb_ch(&q->expect, '\n');
+		}
+	}
+	bb_printf(&q->expect, "B %zu\n", bl);
+	bb_add(&q->expect, body.p, body.n);
+	snprintf(q->desc, sizeof(q->desc), "%s big-head=%zu len=%zu", post ? "POST" : "GET", head, q->wire.n);
+	bb_free(&all);
+	bb_free(&hl);
+	bb_free(&body);
+}
+
+// read cuts that matter for a head larger than the buffer: around multiples
+// of the buffer size and at the line ends next to them
+static int
+big_cuts(const bb *w, size_t *out, int max)
+{
+	int n = 0;
+	for (size_t base = NNG_HTTP_BUF; base < w->n + 2 && n + 12 < max; base += NNG_HTTP_BUF) {
+		for (int d = -2; d <= 2; d++) out[n++] = base + (size_t) d;
+		size_t e = base < w->n ? base : w->n - 1;
+		while (e > 0 && w->p[e] != '\n') e--; // line end before the boundary
+		out[n++] = e;
+		out[n++] = e + 1;
+		e = base;
+		while (e < w->n && w->p[e] != '\n') e++; // and after it
+		out[n++] = e;
+		out[n++] = e + 1;
+	}
+	return n;
+}
+
 static rpeer sp = { .fd = -1 };
 
 static void
@@ -1164,7 +1268,7 @@ sp_connect(void)
 	if (sp.fd < 0) vf_harness_fail("raw client cannot connect to the nng http server");
 }
 
-enum { SEG_WHOLE = 0, SEG_CUT, SEG_DRIBBLE, SEG_RANDOM, SEG_PACED, SEG_WDRIBBLE, SEG_WRANDOM, SEG_WCUT };
+enum { SEG_WHOLE = 0, SEG_CUT, SEG_DRIBBLE, SEG_RANDOM, SEG_PACED, SEG_WDRIBBLE, SEG_WRANDOM, SEG_WCUT, SEG_PIECES };
 
 // send one request under a segmentation, read the response.  Returns 1 with
 // response range, <=0 as rp_read_response
@@ -1197,6 +1301,13 @@ server_exchange(hreq *q, int seg, size_t a, size_t b2, uint64_t key, hmsg *m, si
 			vf_quiesce(1, 2000);
 		}
 		if (wr == 0) wr = vf_fd_write_all(sp.fd, q->wire.p + c2, q->wire.n - c2, 5000);
+	} else if (seg == SEG_PIECES) {
+		// the peer writes pieces of 'a' bytes and lets nng consume each
+		wr = 0;
+		for (size_t o = 0; o < q->wire.n && wr == 0; o += a) {
+			wr = vf_fd_write_all(sp.fd, q->wire.p + o, q->wire.n - o < a ? q->wire.n - o : a, 5000);
+			if (o + a < q->wire.n) vf_quiesce(1, 2000);
+		}
 	} else {
 		wr = vf_fd_write_all(sp.fd, q->wire.p, q->wire.n, 5000);
 	}
@@ -1265,7 +1376,7 @@ server_valid_case(long idx, vf_rng *r)
 	size_t rs, re;
 	bb     base = { 0 };
 	char   plan[64];
-	gen_request(r, &q);
+	if (vf_chance(r, 1, 20)) gen_big_request(r, &q); else gen_request(r, &q);
 	vf_case_begin(idx, "http server valid {%s}", q.desc);
 	uint64_t key = vf_rand(r);
 	long     h0  = atomic_load(&handler_calls);
@@ -1284,7 +1395,7 @@ server_valid_case(long idx, vf_rng *r)
 			}
 			if (ok) vf_stat("http_server_exhaustive_cut", 1);
 		} else {
-			int nc = q.closing ? 6 : 40;
+			int nc = q.closing ? 6 : q.big ? 8 : 40;
 			for (int i = 0; i < nc && ok; i++) {
 				size_t k = i < q.m.n * 2 && !q.closing ? q.m.off[i / 2] - (size_t) (i & 1) : vf_range(r, 1, (uint32_t) len - 1);
 				if (k < 1 || k >= len) continue;
@@ -1294,7 +1405,34 @@ server_valid_case(long idx, vf_rng *r)
 				n++;
 			}
 		}
-		if (ok && len <= 1200) {
+		if (ok && q.big) {
+			size_t cuts[64];
+			int    ncut = big_cuts(&q.wire, cuts, 64);
+			for (int i = 0; i < ncut && ok; i++) {
+				if (cuts[i] < 1 || cuts[i] >= len) continue;
+				snprintf(plan, sizeof(plan), "read-cut@%zu(buffer-boundary)", cuts[i]);
+				rv = server_exchange(&q, SEG_CUT, cuts[i], 0, key, &m, &rs, &re);
+				ok = server_check(&q, plan, rv, &m, rs, re, &base);
+				n++;
+			}
+			static const size_t rnd[] = { 600, 4096, 8160, 9000 };
+			for (int i = 0; i < 4 && ok; i++) {
+				snprintf(plan, sizeof(plan), "read-random%zu", rnd[i]);
+				rv = server_exchange(&q, SEG_RANDOM, rnd[i], 0, key + 7 + (uint64_t) i, &m, &rs, &re);
+				ok = server_check(&q, plan, rv, &m, rs, re, &base);
+				n++;
+			}
+			static const size_t pcs[] = { 600, 1460, 8160, 8161 };
+			for (int i = 0; i < 4 && ok; i++) {
+				snprintf(plan, sizeof(plan), "pieces-of-%zu", pcs[i]);
+				rv = server_exchange(&q, SEG_PIECES, pcs[i], 0, key, &m, &rs, &re);
+				ok = server_check(&q, plan, rv, &m, rs, re, &base);
+				n++;
+			}
+			vf_stat("http_big_head_cases", 1);
+			vf_stat("http_server_big_head_cases", 1);
+		}
+		if (ok && (len <= 1200 || (q.big && len <= 10500))) {
 			rv = server_exchange(&q, SEG_DRIBBLE, 1, 0, key, &m, &rs, &re);
 			ok = server_check(&q, "read-dribble1", rv, &m, rs, re, &base);
 			n++;
@@ -1334,7 +1472,7 @@ server_valid_case(long idx, vf_rng *r)
 	}
 	vf_stat("http_server_exchanges", n);
 	if (q.discard) vf_stat("http_server_body_discarded", n);
-	vf_class("http-server/valid/%s%s%s%s/%s", q.head ? "HEAD" : q.discard ? "body-discarded" : "non-HEAD", q.modelled ? "/modelled" : "/differential", q.closing ? "/closing" : "/keepalive", "", len <= 300 ? "exhaustive-cuts" : "sampled-cuts");
+	vf_class("http-server/valid/%s%s%s%s/%s", q.head ? "HEAD" : q.discard ? "body-discarded" : "non-HEAD", q.modelled ? "/modelled" : "/differential", q.closing ? "/closing" : "/keepalive", q.big ? "/big-head" : "", len <= 300 ? "exhaustive-cuts" : "sampled-cuts");
 	if ((idx % 61) == 0) vf_sample("{\"mode\":\"server\",\"request\":\"%s\",\"exchanges\":%ld,\"baseline_response_bytes\":%zu}", q.desc, n, base.n);
 	bb_free(&base);
 	bb_free(&q.wire);
@@ -1538,6 +1676,7 @@ typedef struct {
 	marks m;
 	bool head;
 	bool manual; // nng_http_write_request / read_response / read_all instead of nng_http_transact
+	bool big;    // response head of 8-20 KB made of short lines
 	char desc[96];
 } ctxn;
 
@@ -1673,6 +1812,47 @@ gen_txn(vf_rng *r, ctxn *t)
 	bb_free(&chunked);
 }
 
+// response with a head of 8-20 KB made of short lines
+static void
+gen_big_txn(vf_rng *r, ctxn *t)
+{
+	bb     hl = { 0 }, body = { 0 };
+	size_t target = vf_chance(r, 1, 3) ? vf_range(r, NNG_HTTP_BUF + 1, NNG_HTTP_BUF + 400) : vf_range(r, 8300, 20000);
+	size_t bl     = vf_below(r, 120);
+	memset(t, 0, sizeof(*t));
+	t->big = true;
+	snprintf(t->method, sizeof(t->method), "GET");
+	snprintf(t->uri, sizeof(t->uri), "/bigresp/%u", vf_below(r, 100000));
+	t->manual = vf_chance(r, 1, 3);
+	bb_str(&t->resp, "HTTP/1.1 200 OK\r\n");
+	gen_many_headers(r, &t->resp, target - 40, &hl);
+	bb_printf(&t->resp, "Content-Length: %zu\r\n\r\n", bl);
+	size_t head = t->resp.n;
+	for (size_t i = 0; i < bl; i++) bb_ch(&body, (int) vf_below(r, 256));
+	bb_add(&t->resp, body.p, body.n);
+	bb all = { 0 };
+	bb_add(&all, hl.p, hl.n);
+	bb_printf(&all, "H Content-Length: %zu\n", bl);
+	{
+		static char *lines[MAXLINES];
+		int          nl = 0;
+		char        *save = NULL;
+		for (char *ln = strtok_r((char *) all.p, "\n", &save); ln != NULL && nl < MAXLINES; ln = strtok_r(NULL, "\n", &save)) lines[nl++] = ln;
+		qsort(lines, (size_t) nl, sizeof(char *), cmp_str);
+		bb_str(&t->expect, "S 200\nR OK\n");
+		for (int i = 0; i < nl; i++) {
+			bb_str(&t->expect, lines[i]);
+			bb_ch(&t->expect, '\n');
+		}
+	}
+	bb_printf(&t->expect, "B %zu\n", bl);
+	bb_add(&t->expect, body.p, body.n);
+	snprintf(t->desc, sizeof(t->desc), "GET -> 200 content-length big-head=%zu resp=%zu%s", head, t->resp.n, t->manual ? " manual-api" : "");
+	bb_free(&all);
+	bb_free(&hl);
+	bb_free(&body);
+}
+
 static void
 txn_free(ctxn *t)
 {
@@ -1782,6 +1962,11 @@ client_exchange(ctxn *t, int seg, size_t a, size_t b2, uint64_t key, const char 
 			vf_quiesce(1, 2000);
 		}
 		vf_fd_write_all(cp.fd, t->resp.p + c2, t->resp.n - c2, 5000);
+	} else if (seg == SEG_PIECES) {
+		for (size_t o = 0; o < t->resp.n; o += a) {
+			vf_fd_write_all(cp.fd, t->resp.p + o, t->resp.n - o < a ? t->resp.n - o : a, 5000);
+			if (o + a < t->resp.n) vf_quiesce(1, 2000);
+		}
 	} else {
 		vf_fd_write_all(cp.fd, t->resp.p, t->resp.n, 5000);
 	}
@@ -1816,7 +2001,7 @@ client_exchange(ctxn *t, int seg, size_t a, size_t b2, uint64_t key, const char 
 		client_disconnect();
 		return rv;
 	}
-	char       *lines[MAXH + 8];
+	static char *lines[MAXLINES];
 	int         nl = 0;
 	const char *k, *v;
 	void       *it = NULL;
@@ -1825,7 +2010,7 @@ client_exchange(ctxn *t, int seg, size_t a, size_t b2, uint64_t key, const char 
 	bb_printf(out, "S %d\nR ", (int) nng_http_get_status(cl_conn));
 	bb_str(out, nng_http_get_reason(cl_conn));
 	bb_ch(out, '\n');
-	while (nng_http_next_header(cl_conn, &k, &v, &it) && nl < MAXH + 8) {
+	while (nng_http_next_header(cl_conn, &k, &v, &it) && nl < MAXLINES) {
 		size_t l = strlen(k) + strlen(v) + 8;
 		lines[nl] = malloc(l);
 		snprintf(lines[nl], l, "H %s: %s", k, v);
@@ -1885,7 +2070,7 @@ client_valid_case(long idx, vf_rng *r)
 	bb   got = { 0 }, base = { 0 };
 	char plan[64];
 	long n = 0;
-	gen_txn(r, &t);
+	if (vf_chance(r, 1, 20)) gen_big_txn(r, &t); else gen_txn(r, &t);
 	vf_case_begin(idx, "http client valid {%s}", t.desc);
 	uint64_t key = vf_rand(r);
 	int      rv  = client_exchange(&t, SEG_WHOLE, 0, 0, key, "whole", &got);
@@ -1902,7 +2087,7 @@ client_valid_case(long idx, vf_rng *r)
 			}
 			if (ok) vf_stat("http_client_exhaustive_cut", 1);
 		} else {
-			for (int i = 0; i < 40 && ok; i++) {
+			for (int i = 0; i < (t.big ? 8 : 40) && ok; i++) {
 				size_t k = i < t.m.n * 2 ? t.m.off[i / 2] - (size_t) (i & 1) : vf_range(r, 1, (uint32_t) len - 1);
 				if (k < 1 || k >= len) continue;
 				snprintf(plan, sizeof(plan), "read-cut@%zu", k);
@@ -1911,7 +2096,34 @@ client_valid_case(long idx, vf_rng *r)
 				n++;
 			}
 		}
-		if (ok && len <= 1500) {
+		if (ok && t.big) {
+			size_t cuts[64];
+			int    ncut = big_cuts(&t.resp, cuts, 64);
+			for (int i = 0; i < ncut && ok; i++) {
+				if (cuts[i] < 1 || cuts[i] >= len) continue;
+				snprintf(plan, sizeof(plan), "read-cut@%zu(buffer-boundary)", cuts[i]);
+				rv = client_exchange(&t, SEG_CUT, cuts[i], 0, key, plan, &got);
+				ok = client_check(&t, plan, rv, &got, &base, false);
+				n++;
+			}
+			static const size_t rnd[] = { 600, 4096, 8160, 9000 };
+			for (int i = 0; i < 4 && ok; i++) {
+				snprintf(plan, sizeof(plan), "read-random%zu", rnd[i]);
+				rv = client_exchange(&t, SEG_RANDOM, rnd[i], 0, key + 7 + (uint64_t) i, plan, &got);
+				ok = client_check(&t, plan, rv, &got, &base, false);
+				n++;
+			}
+			static const size_t pcs[] = { 600, 1460, 8160, 8161 };
+			for (int i = 0; i < 4 && ok; i++) {
+				snprintf(plan, sizeof(plan), "pieces-of-%zu", pcs[i]);
+				rv = client_exchange(&t, SEG_PIECES, pcs[i], 0, key, plan, &got);
+				ok = client_check(&t, plan, rv, &got, &base, false);
+				n++;
+			}
+			vf_stat("http_big_head_cases", 1);
+			vf_stat("http_client_big_head_cases", 1);
+		}
+		if (ok && (len <= 1500 || (t.big && len <= 10500))) {
 			rv = client_exchange(&t, SEG_DRIBBLE, 1, 0, key, "read-dribble1", &got);
 			ok = client_check(&t, "read-dribble1", rv, &got, &base, false);
 			n++;
@@ -1945,8 +2157,8 @@ client_valid_case(long idx, vf_rng *r)
 		}
 	}
 	vf_stat("http_client_exchanges", n);
-	const char *fr = strstr(t.desc, "chunked") ? "chunked" : strstr(t.desc, "head") ? "head" : strstr(t.desc, "content-length-0") ? "clen0" : strstr(t.desc, "no-body") ? "nobody" : "clen";
-	vf_class("http-client/valid/%s%s/%s", fr, t.manual ? "/manual-api" : "", len <= 300 ? "exhaustive-cuts" : "sampled-cuts");
+	const char *fr = t.big ? "clen" : strstr(t.desc, "chunked") ? "chunked" : strstr(t.desc, "head") ? "head" : strstr(t.desc, "content-length-0") ? "clen0" : strstr(t.desc, "no-body") ? "nobody" : "clen";
+	vf_class("http-client/valid/%s%s%s/%s", fr, t.manual ? "/manual-api" : "", t.big ? "/big-head" : "", len <= 300 ? "exhaustive-cuts" : "sampled-cuts");
 	if ((idx % 61) == 0) vf_sample("{\"mode\":\"client\",\"txn\":\"%s\",\"exchanges\":%ld}", t.desc, n);
 	bb_free(&got);
 	bb_free(&base);
